@@ -419,6 +419,9 @@ func (v *Verifier) propCheck(prop, tier string, seed int, update bool, t0 time.T
 		if !inCone {
 			continue // the function is no longer reachable from the property's roots: its obligations are moot
 		}
+		if r.EstabOnly && !strings.HasSuffix(n, "/inv") {
+			continue // now in the cone only as an establisher: only its invariant projections are this property's business
+		}
 		if r.Err != nil {
 			if !erroredSeen[fn] {
 				erroredSeen[fn] = true
@@ -437,7 +440,7 @@ func (v *Verifier) propCheck(prop, tier string, seed int, update bool, t0 time.T
 	}
 	// a function of the cone that cannot be analysed and has no baseline entry yet: no verdict is possible
 	for _, n := range names {
-		if r := runs[n]; r.Err != nil && !erroredSeen[n] {
+		if r := runs[n]; r.Err != nil && !erroredSeen[n] && !r.EstabOnly {
 			fmt.Println("ENGINE-ERROR:", r.Err)
 			return 2
 		}
@@ -491,7 +494,9 @@ func (v *Verifier) propCheck(prop, tier string, seed int, update bool, t0 time.T
 			rc = 2
 		}
 	}
-	if tier == "thorough" && os.Getenv("VERIF_REPO") == "" {
+	if tier == "thorough" && os.Getenv("VERIF_REPO") == "" && (prop == "C06" || prop == "C08" || prop == "C12" || prop == "C15") {
+		// the conformance programs guard the machinery, not one property: they run with the thorough checks of the
+		// four properties whose cones reach most of the models (and any time through `vcheck stdmodels`)
 		rep, bad := v.stdModelConformance(100, int64(seed)+3)
 		v.stdConf = rep
 		for _, b := range bad {
